@@ -89,7 +89,7 @@ Value& MemberPUTExpression::value(Context& ctx) const
       switch (rv_type.major())
       {
       case Type::INTEGER:
-        if (a1_type == Type::NUMERIC)
+        if (a1_type == Type::NUMERIC && rv_type.level() == 1)
         {
           rv->at(p).deref_value().swap(a1.isNull() ? Value(Value::type_integer) : Value(Value::toInteger(*a1.numeric())));
           return val;
@@ -101,7 +101,7 @@ Value& MemberPUTExpression::value(Context& ctx) const
         }
         break;
       case Type::NUMERIC:
-        if (a1_type == Type::INTEGER)
+        if (a1_type == Type::INTEGER && rv_type.level() == 1)
         {
           rv->at(p).deref_value().swap(a1.isNull() ? Value(Value::type_numeric) : Value(Numeric(*a1.integer())));
           return val;
